@@ -80,8 +80,8 @@ func (w *World) checkC48() {
 	}
 	type iv struct{ from, to int64 } // stamps: possibly present from 'from' (Present invoked) until 'to' (CleanUp returned); certainly present in between the inner pair
 	type val struct {
-		txt                              string
-		pCall, pRet, cCall, cRet         int64
+		txt                      string
+		pCall, pRet, cCall, cRet int64
 	}
 	var mu sync.Mutex
 	vals := []*val{}
